@@ -338,6 +338,33 @@ impl Context {
         task.set_data(&self.vars());
         self.emit_task(task)?;
 
+        // the whole process ends here: close what is still open outside the ancestor chain
+        // (tasks of other branches, tasks still waiting in the queue) before the ancestors
+        // and finally the workflow itself are aborted
+        let mut ancestors = Vec::new();
+        let mut up = task.parent();
+        while let Some(p) = up {
+            ancestors.push(p.id.clone());
+            up = p.parent();
+        }
+        let mut others = self.proc.tasks();
+        others.sort_by(|a, b| b.timestamp.cmp(&a.timestamp));
+        for t in others.iter() {
+            if t.state().is_completed() || ancestors.contains(&t.id) {
+                continue;
+            }
+            if t.is_kind(NodeKind::Branch) {
+                // a branch never reports to the client, initialised or not
+                t.set_emit_disabled(true);
+            }
+            if t.state().is_none() || t.state().is_pending() {
+                t.set_state(TaskState::Skipped);
+            } else {
+                t.set_state(TaskState::Aborted);
+            }
+            self.emit_task(t)?;
+        }
+
         // abort all running task
         let ctx = self;
         let mut parent = task.parent();
